@@ -13,6 +13,7 @@ import (
 	"path"
 	"path/filepath"
 	"strings"
+	"sync"
 	"time"
 )
 
@@ -21,6 +22,10 @@ var txtDecoder = charmap.Macintosh.NewDecoder()
 
 // Converts bytes from UTF-8 to Mac Roman encoding
 var txtEncoder = charmap.Macintosh.NewEncoder()
+
+// messageBoardMu serializes access to the message board: its reader has a single cursor shared by all clients, so a
+// read (seek to start + read to the end) must not overlap with another read or with a post.
+var messageBoardMu sync.Mutex
 
 // Assign functions to handle specific Hotline transaction types
 func RegisterHandlers(srv *hotline.Server) {
@@ -915,7 +920,9 @@ func HandleTranOldPostNews(cc *hotline.ClientConn, t *hotline.Transaction) (res 
 	newsPost := fmt.Sprintf(newsTemplate+"\r", cc.UserName, time.Now().Format(newsDateTemplate), t.GetField(hotline.FieldData).Data)
 	newsPost = strings.ReplaceAll(newsPost, "\n", "\r")
 
+	messageBoardMu.Lock()
 	_, err := cc.Server.MessageBoard.Write([]byte(newsPost))
+	messageBoardMu.Unlock()
 	if err != nil {
 		cc.Logger.Error("error writing news post", "err", err)
 		return nil
@@ -1252,9 +1259,11 @@ func HandleGetMsgs(cc *hotline.ClientConn, t *hotline.Transaction) (res []hotlin
 		return cc.NewErrReply(t, "You are not allowed to read news.")
 	}
 
+	messageBoardMu.Lock()
 	_, _ = cc.Server.MessageBoard.Seek(0, 0)
 
 	newsData, err := io.ReadAll(cc.Server.MessageBoard)
+	messageBoardMu.Unlock()
 	if err != nil {
 		cc.Logger.Error("Error reading messageboard", "err", err)
 	}
